@@ -44,6 +44,10 @@ func check(c cons.Case, w *enum.Worker) {
 		if w.Guard("SerializeLayers", func() { err = gopacket.SerializeLayers(shared, sopts, all...) }) {
 			return
 		}
+		if err != nil && c.MayRefuse {
+			w.OutcomeString("constructed-refused:" + cons.FamilyOf(b.desc))
+			return
+		}
 		if err != nil {
 			w.Violation("c06|constructed|serialize-error|"+cons.FamilyOf(b.desc), fmt.Sprintf("%s: %v", b.desc, err))
 			return
